@@ -732,8 +732,9 @@ def GmdStatement : Prop :=
     invariant holds initially by the SVD contract (`init_inv`), is preserved (`Inv.step`), implies
     that every index read is in range (`Inv.bounds`), and at `k = p − 1` gives the five
     conclusions (`Inv.final`).  The array / `Except` model refines the abstract step
-    (`gmdStep_refines`, `sweep_ok`, `finish_ok`).
-    Complex matrices: `gmd_correct_complex`. -/
+    (`gmdStep_refines`, `sweep_ok`, `finish_ok`).  The whole proof is carried out once for a field
+    of scalars containing the reals (`GmdInv.RealLike`); this is the instance `K = ℝ`.
+    Complex matrices: `gmd_correct_complex`; any tolerance: `gmd_correct_truncated`. -/
 theorem gmd_correct : GmdStatement :=
   fun m n U V S sb hp hU hV hS hmono hsb hprod =>
     GmdInv.gmd_sound GmdInv.realLike_real m n U V S sb hp hU hV hS hmono hsb hprod
@@ -850,12 +851,12 @@ theorem gmd_partner_large (S : Nat → ℝ) (sb dk : ℝ) (lo hi lg : Nat) (hsb 
   ⟨GmdInv.pick_large_flag_never S sb dk lo hi lg hsb Spos hmax hprod hlt,
    GmdInv.pick_large_cs S sb dk lo hi lg hsb hdk Spos hmax hlg hprod hlt⟩
 
-/-- the algebraic core of one rotating step (kept from the earlier, partial version; it is what
-    `MInv.rot` uses): the pivot pair
+/-- the 2×2 algebra of one rotating step in the form `G2ᵀ · diag · G1` (the invariant proof uses
+    the equivalent form `diag · G1 = G2 · [[σ̄, x], [0, y]]`, `GmdInv.gmd_step_AP`): the pivot pair
     `δ1, δ2` straddles the geometric mean `σ̄` — the parameters `c, s` the code computes make
     `G1` and `G2` orthogonal and `G2ᵀ · diag(δ1, δ2) · G1 = [[σ̄, x], [0, y]]` with exactly the
     `x` stored in `z[k]` and the `y` stored back in `d[k+1]`. -/
-theorem gmd_rotation_step_partial (sb d1 d2 : ℝ) (hsb : 0 < sb)
+theorem gmd_rotation_step (sb d1 d2 : ℝ) (hsb : 0 < sb)
     (h : (0 ≤ d2 ∧ d2 < sb ∧ sb ≤ d1) ∨ (0 ≤ d1 ∧ d1 < sb ∧ sb ≤ d2)) :
     let cs := gmdCS false sb d1 d2
     let g := gmdG1 cs.1 cs.2
